@@ -80,6 +80,28 @@ def run(payload):
                 fails.append({"id": cfg_id(cfg), "config": cfg, "grid": repr(grid), "bc": bc, "residual": dev,
                               "rhs": rhs.data.tolist() if rhs.data.size < 200 else "large"})
                 break
+    # problems without a solution: whatever comes back (if anything) must solve the discrete problem
+    from pde import CartesianGrid, solve_laplace_equation
+    unsolvable = [("laplace_1d_inconsistent_fluxes", lambda: solve_laplace_equation(CartesianGrid([(0, 1)], 8), {"x-": {"derivative": 1.0}, "x+": {"derivative": 0.5}}),
+                   CartesianGrid([(0, 1)], 8), {"x-": {"derivative": 1.0}, "x+": {"derivative": 0.5}}, None)]
+    g2 = CartesianGrid([(0, 1), (0, 1)], [4, 4], periodic=[True, False])
+    bc2 = {"x": "periodic", "y-": {"derivative": 1.0}, "y+": {"derivative": 0.25}}
+    r2 = ScalarField(g2, rng.uniform(-1, 1, g2.shape)); r2 -= r2.average
+    unsolvable.append(("poisson_2d_mean_free_rhs_inconsistent_fluxes", lambda: solve_poisson_equation(r2, bc2), g2, bc2, r2))
+    for name, call, g, bc, rhs_f in unsolvable:
+        cases += 1
+        try:
+            sol = call()
+        except RuntimeError:
+            errors_ok += 1
+            continue
+        except Exception as e:
+            fails.append({"id": "unsolvable_problem_other_error", "case": name, "error": f"{type(e).__name__}: {e}"})
+            continue
+        target = np.zeros(g.shape) if rhs_f is None else rhs_f.data
+        dev = float(np.max(np.abs(sol.laplace(bc).data - target)))
+        if not dev <= 1e-6:
+            fails.append({"id": "non_solution_returned_for_an_unsolvable_problem", "case": name, "residual": dev, "max_abs_solution": float(np.max(np.abs(sol.data)))})
     return {"ok": True, "cases": cases, "failures": fails, "reported_as_errors": errors_ok, "ill_conditioned_skipped": ill}
 
 
